@@ -60,3 +60,47 @@ func VerifPatternSources() map[string]string {
 		"excluded": navigationPatterns.excluded.String(),
 	}
 }
+
+// ---- C15: document-level Markdown model ----
+
+// VerifMeta returns what the front matter of MarkdownWithRAGOptions reads: r.title and
+// the <meta> name/content map (a copy).
+func (r *Reader) VerifMeta() (title string, meta map[string]string) {
+	meta = make(map[string]string, len(r.metadata))
+	for k, v := range r.metadata {
+		meta[k] = v
+	}
+	return r.title, meta
+}
+
+// VerifNewReader builds a Reader without a parsed document: r.elements are the elements
+// given for NavigationExclusionNone, filteredCache is pre-filled with the lists given for
+// the other modes (so getElements never has to parse), title and metadata as given.
+func VerifNewReader(byMode map[NavigationExclusionMode][]VerifElement, title string, meta map[string]string) *Reader {
+	conv := func(in []VerifElement) []parsedElement {
+		out := make([]parsedElement, 0, len(in))
+		for _, v := range in {
+			e := parsedElement{Type: v.Type, Text: v.Text, Level: v.Level, Ordered: v.Ordered, Table: v.Table}
+			for _, it := range v.Items {
+				e.Items = append(e.Items, listItem{Text: it.Text, Level: it.Level, Ordered: it.Ordered})
+			}
+			out = append(out, e)
+		}
+		return out
+	}
+	r := &Reader{
+		title:         title,
+		metadata:      make(map[string]string, len(meta)),
+		elements:      conv(byMode[NavigationExclusionNone]),
+		filteredCache: make(map[NavigationExclusionMode][]parsedElement),
+	}
+	for k, v := range meta {
+		r.metadata[k] = v
+	}
+	for mode, els := range byMode {
+		if mode != NavigationExclusionNone {
+			r.filteredCache[mode] = conv(els)
+		}
+	}
+	return r
+}
